@@ -85,6 +85,11 @@ func main() {
 					case fn == "a.mu.Lock":
 						evs = append(evs, ev{x.Pos(), fn})
 					}
+				case *ast.DeferStmt:
+					if fn := f.Render(x.Call.Fun); strings.HasPrefix(fn, "a.mu.") {
+						evs = append(evs, ev{x.Pos(), "defer " + fn})
+						return false
+					}
 				case *ast.IfStmt:
 					if f.Render(x.Cond) == "err != nil" && len(x.Body.List) == 1 {
 						if _, ok := x.Body.List[0].(*ast.ReturnStmt); ok {
